@@ -280,7 +280,11 @@ class MinFlowDecomp(pathmodel.AbstractPathModelDAG): # Note that we inherit from
 
     def _solve_with_given_weights(self) -> bool:
 
-        all_weights = set({self.G.edges[e][self.flow_attr] for e in self.G.edges() if self.flow_attr in self.G.edges[e]})
+        # The candidate weights come from the edges whose flow has to be explained: an ignored edge may carry any value
+        # (and for integer weights only integral values are candidates)
+        all_weights = set({self.G.edges[e][self.flow_attr] for e in self.G.edges() if self.flow_attr in self.G.edges[e] and e not in self.edges_to_ignore})
+        if self.weight_type == int:
+            all_weights = set({int(weight) for weight in all_weights if float(weight).is_integer()})
         all_weights_list = list(all_weights)
         
         # We call this so that the generating set is computed and stored in the class, if this optimization is activated
